@@ -3,6 +3,7 @@ package gen
 
 import (
 	"fmt"
+	"math"
 	"sort"
 
 	"pgregory.net/rapid"
@@ -333,6 +334,22 @@ func (g *G) literal(t hs.Type) hs.Expr {
 	case hs.KNull:
 		return hs.NullLit{}
 	case hs.KRange:
+		if g.chance("rangeAtExtreme", 8) {
+			// a range that ends (or starts) at the largest / smallest integer: the bound arithmetic of an iterator
+			// has nowhere to go there
+			d := int64(g.intn("rlenExtreme", 0, 4))
+			incl := g.chance("incl", 40)
+			switch g.pick("rangeExtremeForm", 4) {
+			case 0:
+				return hs.RangeLit{Lo: hs.IntLit{V: math.MaxInt64 - d}, Hi: hs.IntLit{V: math.MaxInt64}, Incl: incl}
+			case 1:
+				return hs.RangeLit{Lo: hs.IntLit{V: math.MinInt64 + d}, Hi: hs.IntLit{V: math.MinInt64}, Incl: incl}
+			case 2:
+				return hs.RangeLit{Lo: hs.IntLit{V: math.MaxInt64}, Hi: hs.IntLit{V: math.MaxInt64 - d}, Incl: incl}
+			default:
+				return hs.RangeLit{Lo: hs.IntLit{V: math.MinInt64}, Hi: hs.IntLit{V: math.MinInt64 + d}, Incl: incl}
+			}
+		}
 		lo := g.intn("rlo", -2, 3)
 		return hs.RangeLit{Lo: hs.IntLit{V: int64(lo)}, Hi: hs.IntLit{V: int64(lo + g.intn("rlen", -3, 4))}, Incl: g.chance("incl", 25)}
 	case hs.KList:
